@@ -65,7 +65,7 @@ func (c *FnCtx) execBuiltin(x *ssa.Call, b *ssa.Builtin, common *ssa.CallCommon,
 		} else {
 			t := c.term(common.Args[1])
 			addLen = sLen(t)
-			src = func(i Term) Term { return sel(sel(h, sBase(t)), add(sOff(t), i)) }
+			src = func(i Term) Term { return sel(sel(h, sBase(t)), eidx(sOff(t), i)) }
 			// varargs of a constant number of elements: slice t38[:] of new [k]T
 			if sx, ok := common.Args[1].(*ssa.Slice); ok && sx.Low == nil && sx.High == nil {
 				if pt, ok := sx.X.Type().Underlying().(*types.Pointer); ok {
@@ -92,7 +92,7 @@ func (c *FnCtx) execBuiltin(x *ssa.Call, b *ssa.Builtin, common *ssa.CallCommon,
 		} else {
 			t := c.term(common.Args[1])
 			srcLen = sLen(t)
-			src = func(i Term) Term { return sel(sel(h, sBase(t)), add(sOff(t), i)) }
+			src = func(i Term) Term { return sel(sel(h, sBase(t)), eidx(sOff(t), i)) }
 		}
 		n := c.fresh("copyn", SInt)
 		c.define(eq(n, ite(le(sLen(dst), srcLen), sLen(dst), srcLen)))
@@ -191,7 +191,7 @@ func (c *FnCtx) libraryModel(x *ssa.Call, obj *types.Func, common *ssa.CallCommo
 		key, hs := c.g.elemHeapKey(types.Universe.Lookup("error").Type())
 		h := c.heap(st, key, hs)
 		arr := sel(h, sBase(sl))
-		c.define(Term{fmt.Sprintf("(= (= %s 0) (forall ((i! Int)) (=> (and (<= 0 i!) (< i! %s)) (= (select %s (+ %s i!)) 0))))",
+		c.define(Term{fmt.Sprintf("(= (= %s 0) (forall ((i! Int)) (=> (and (<= 0 i!) (< i! %s)) (= (select %s (idx %s i!)) 0))))",
 			e.S, sLen(sl).S, arr.S, sOff(sl).S), SBool})
 		setResult(Val{kind: vTerm, t: e})
 		return true
@@ -212,7 +212,7 @@ func (c *FnCtx) libraryModel(x *ssa.Call, obj *types.Func, common *ssa.CallCommo
 			if !bigE {
 				bi = n - 1 - i
 			}
-			byteT := sel(arr, add(sOff(s), intLit(int64(bi))))
+			byteT := sel(arr, eidx(sOff(s), intLit(int64(bi))))
 			c.define(and(le(tZero, byteT), le(byteT, intLit(255))))
 			r = add(mul(r, intLit(256)), byteT)
 		}
@@ -261,7 +261,7 @@ func (c *FnCtx) libraryModel(x *ssa.Call, obj *types.Func, common *ssa.CallCommo
 			if bigE {
 				bt = le8[n-1-i]
 			}
-			arr = store(arr, add(sOff(s), intLit(int64(i))), bt)
+			arr = store(arr, eidx(sOff(s), intLit(int64(i))), bt)
 		}
 		st.heaps[key] = store(h, sBase(s), arr)
 		return true
@@ -318,7 +318,7 @@ func (c *FnCtx) appendModel(st *State, s Term, key string, hs Sort, addLen Term,
 	oldArr := sel(h, sBase(s))
 	// fresh case: a new array F (offset 0) holding the old prefix followed by the appended elements
 	F := c.fresh("apparr", elemArr)
-	c.define(Term{fmt.Sprintf("(forall ((k! Int)) (! (=> (and (<= 0 k!) (< k! %s)) (= (select %s k!) (select %s (+ %s k!)))) :pattern ((select %s k!))))",
+	c.define(Term{fmt.Sprintf("(forall ((k! Int)) (! (=> (and (<= 0 k!) (< k! %s)) (= (select %s k!) (select %s (idx %s k!)))) :pattern ((select %s k!))))",
 		sLen(s).S, F.S, oldArr.S, sOff(s).S, F.S), SBool})
 	// in-place case: the old array with the cells [off+len, off+len+n) overwritten
 	var I Term
@@ -326,7 +326,7 @@ func (c *FnCtx) appendModel(st *State, s Term, key string, hs Sort, addLen Term,
 		I = oldArr
 		for j := 0; j < constN; j++ {
 			v := src(intLit(int64(j)))
-			I = store(I, add(sOff(s), add(sLen(s), intLit(int64(j)))), v)
+			I = store(I, eidx(sOff(s), add(sLen(s), intLit(int64(j)))), v)
 			c.define(eq(sel(F, add(sLen(s), intLit(int64(j)))), v))
 		}
 	} else {
@@ -349,7 +349,7 @@ func (c *FnCtx) elemArrayWellTypedIfSrc(key string, a Term) { c.elemArrayWellTyp
 // bytesEqual: content equality of two byte slices in heap h.
 func (c *FnCtx) bytesEqual(h Term, a, b Term) Term {
 	return and(eq(sLen(a), sLen(b)),
-		Term{fmt.Sprintf("(forall ((i! Int)) (=> (and (<= 0 i!) (< i! %s)) (= (select %s (+ %s i!)) (select %s (+ %s i!)))))",
+		Term{fmt.Sprintf("(forall ((i! Int)) (=> (and (<= 0 i!) (< i! %s)) (= (select %s (idx %s i!)) (select %s (idx %s i!)))))",
 			sLen(a).S, sel(h, sBase(a)).S, sOff(a).S, sel(h, sBase(b)).S, sOff(b).S), SBool})
 }
 
